@@ -51,14 +51,15 @@ def _field_def(t, opt, sub=None):
 
 def build_model(shape, twin=False):
     """Model class for a shape (cached). `twin=True` gives a second, distinct class with equal fields
-    (an equal-but-distinct schema: an instance of one is not an instance of the other)."""
-    key = (shape, "twin") if twin else shape
+    (an equal-but-distinct schema: an instance of one is not an instance of the other); `twin="namesake"` a third
+    distinct class that also carries the first one's __name__/__qualname__ (distinct only by identity)."""
+    key = (shape, "twin" if twin is True else twin) if twin else shape
     m = _MODEL_CACHE.get(key)
     if m is None:
         defs = {}
         for f in shape:
             defs[f[0]] = _field_def(f[1], f[2] if f[1] != "model" or f[2] != 2 else 0, f[3] if len(f) > 3 else None)
-        m = create_model("S%d" % len(_MODEL_CACHE), **defs)
+        m = create_model(build_model(shape).__name__ if twin == "namesake" else "S%d" % len(_MODEL_CACHE), **defs)
         _MODEL_CACHE[key] = m
     return m
 
